@@ -45,6 +45,8 @@ type Engine struct {
 	assumptions map[string]bool
 	ghosts     map[string]GhostField // "pkg.Type.field"
 	immut      map[*ssa.Global]error
+	gconsts    map[*ssa.Global]*globalConst
+	funcsCache []*ssa.Function
 }
 
 func (e *Engine) immutable(g *ssa.Global) error {
@@ -103,7 +105,7 @@ func loadEngine(repo, verif string) (*Engine, error) {
 		specSigs: map[string]*SpecSig{}, specFiles: map[string]string{}, specDeps: map[string][]string{}, binds: map[string]string{},
 		keySorts: map[string]string{}, heapInit: map[string]func(*VC, string){}, globalInit: map[string]func(*VC, string){},
 		effects: map[*ssa.Function]*modSet{}, modKeys: map[*ssa.Function]map[string]bool{}, typeTags: map[string]int{},
-		globIdx: map[*ssa.Global]int{}, assumptions: map[string]bool{}, ghosts: map[string]GhostField{}, immut: map[*ssa.Global]error{}}
+		globIdx: map[*ssa.Global]int{}, assumptions: map[string]bool{}, ghosts: map[string]GhostField{}, immut: map[*ssa.Global]error{}, gconsts: map[*ssa.Global]*globalConst{}}
 	cfg := &packages.Config{Mode: packages.LoadSyntax, Dir: repo, BuildFlags: []string{"-tags=verif"},
 		Env: append(os.Environ(), "GOFLAGS=-mod=mod", "GOPROXY=off", "GOSUMDB=off", "GOTOOLCHAIN=local")}
 	pkgs, err := packages.Load(cfg, "rcproxy/core/...")
@@ -411,7 +413,7 @@ func (e *Engine) verifyFunc(fn *ssa.Function, spec *FuncSpec) (vc *VC, err error
 			panic(r)
 		}
 	}()
-	st := &State{cells: map[*ssa.Alloc]Term{}, heap: map[string]Term{}}
+	st := newState()
 	vc.heapGet(st, "ALLOC")
 	var args []Term
 	var paramTerms []Term
@@ -444,7 +446,7 @@ func (e *Engine) verifyFunc(fn *ssa.Function, spec *FuncSpec) (vc *VC, err error
 		targets = vc.modTargets(env, spec)
 	}
 	res, out, opc := vc.execFunc(fr, args, st, "true")
-	env2 := &Env{vc: vc, vars: env.vars, cur: out, old: fr.entry, pkg: fn.Pkg, results: res}
+	env2 := &Env{vc: vc, vars: withNamedResults(env.vars, fn.Signature.Results(), res), cur: out, old: fr.entry, pkg: fn.Pkg, results: res}
 	for i, en := range spec.Ensures {
 		g := vc.evalBool(env2, en.Expr)
 		lab := en.Label
